@@ -302,7 +302,7 @@ class NodeModel(Engine):
                           st.sampled_from([None] * 12 + ['!!set'])))
 
         opt = st.tuples(st.integers(0, len(OP_TABLE) - 1), st.integers(0, 11),
-                        st.integers(0, 63), st.integers(0, 255))
+                        st.integers(0, 63), st.integers(0, 511))
 
         @st.composite
         def plan(draw):
@@ -348,10 +348,27 @@ class NodeModel(Engine):
         exec(compile(src, '<simgen:c14cls>', 'exec'), ns)
         src += '# _d = {!r}; _o = {!r}\n'.format(dvals, ovals)
         defaults = {p.replace('-', '_'): pyval(d) for p, d in opt}
+        base_defaults = dict(defaults)
         for p, d in cl['override'].items():
             if p.replace('-', '_') in defaults:
                 defaults[p.replace('-', '_')] = pyval(d)
-        out = (ns['K'], defaults, src)
+        target, sibling = ns['K'], None
+        if cl.get('sibling'):
+            # class KS(K) inherits K.__init__ and carries its own _yatiml_defaults
+            # (which shadows K's, as hasattr/getattr on the class see it)
+            svals = {p.replace('-', '_'): pyval(d) for p, d in cl['sibling'].items()}
+            ks = type('KS', (ns['K'],), {'_yatiml_defaults': svals})
+            src += '# class KS(K): _yatiml_defaults = {!r}; target = {}\n'.format(
+                svals, cl.get('target'))
+            if cl.get('target') == 'sub':
+                target, sibling = ks, ns['K']
+                defaults = dict(base_defaults)
+                for p, v in svals.items():
+                    if p in defaults:
+                        defaults[p] = v
+            else:
+                sibling = ks
+        out = (target, defaults, src, sibling)
         self.classes[key] = out
         return out
 
@@ -486,6 +503,12 @@ class NodeModel(Engine):
             if vsel & 64 and params:
                 p = params[vsel % len(params)][0]
                 op['cl']['override'][p] = DEFAULTS[(vsel // 3) % len(DEFAULTS)]
+            if vsel & 128 and params:
+                # a sibling class that shares the __init__ (inherits it) and has its own
+                # _yatiml_defaults is sweetened first, on an unrelated empty node
+                p = params[(vsel // 5) % len(params)][0]
+                op['cl']['sibling'] = {p: DEFAULTS[(vsel // 7) % len(DEFAULTS)]}
+                op['cl']['target'] = 'sub' if vsel & 256 else 'base'
         return op
 
     def pick_key(self, sel, m, fresh_names):
@@ -738,7 +761,17 @@ class NodeModel(Engine):
             return kind
 
         if kind == 'remove_defaults':
-            cls, defaults, src = self.make_class(op['cl'])
+            cls, defaults, src, sibling = self.make_class(op['cl'])
+            if sibling is not None:
+                # sweetening an unrelated (empty) node of the sibling class first must
+                # not influence what happens to this node
+                scratch = yatiml.Node(yaml.MappingNode(CORE + 'map', []))
+                r0 = call(scratch.remove_attributes_with_default_values, sibling)
+                if r0[0] != 'ok':
+                    raise Mismatch(kind, 'raised', {
+                        'exception': type(r0[1]).__name__, 'text': str(r0[1])[:200],
+                        'class_source': src, 'exc_class': type(r0[1]).__name__, 'on': 'empty sibling node'})
+                stats.count('remove_defaults:with-sibling-class')
             before = [(k.value, v) for k, v in m.value]
             must_remove, must_keep = set(), set()
             for key, mv in before:
